@@ -86,6 +86,49 @@ def discr_weights(min_pt, max_pt, shape, bdry):
     return W
 
 
+def grid_axis_weights(x0, s, n, a, b):
+    """Exact quadrature weights of the ``n`` nodes x0, x0+s, ... in the interval [a, b].
+
+    Midpoint rule: node i owns [x_i - s/2, x_i + s/2], the outermost cells are cropped or
+    extended to the interval ends (``RectPartition.boundary_cell_fractions``: "the "natural"
+    outermost cell around these points can either be cropped or extended ... If a grid point
+    lies exactly on the boundary, the value is 1/2 ... Otherwise, any value larger than 1/2 is
+    possible").  A single node owns the whole interval.  Needs a <= x0 and x0+(n-1)s <= b.
+    """
+    x0, s, a, b = Fr(x0), Fr(s), Fr(a), Fr(b)
+    if n == 1:
+        return [b - a]
+    last = x0 + (n - 1) * s
+    assert a <= x0 and last <= b and s > 0
+    if n == 2:
+        return [x0 + s / 2 - a, b - (last - s / 2)]
+    return [x0 + s / 2 - a] + [s] * (n - 2) + [b - (last - s / 2)]
+
+
+def grid_weights(x0, s, shape, lo, hi):
+    """Weight array (C order) of an n-d grid partition: outer product of the axis weights."""
+    axes = [grid_axis_weights(x, st, n, a, b) for x, st, n, a, b in zip(x0, s, shape, lo, hi)]
+    W = np.empty(tuple(shape), dtype=float)
+    for idx in np.ndindex(*shape):
+        w = Fr(1)
+        for ax, i in enumerate(idx):
+            w *= axes[ax][i]
+        W[idx] = float(w)
+    return W
+
+
+def grid_fractions(x0, s, shape, lo, hi):
+    """Per axis (left, right) fraction of the outermost natural cell inside the interval."""
+    out = []
+    for x, st, n, a, b in zip(x0, s, shape, lo, hi):
+        if n == 1:
+            out.append((Fr(1), Fr(1)))
+        else:
+            w = grid_axis_weights(x, st, n, a, b)
+            out.append((w[0] / Fr(st), w[-1] / Fr(st)))
+    return out
+
+
 def has_boundary_fraction(shape, bdry):
     """True if some outermost cell is only partly inside the domain (fraction != 1)."""
     return any(n > 1 and (l or r) for n, (l, r) in zip(shape, bdry))
